@@ -14,6 +14,7 @@ import (
 	"sort"
 	"strings"
 	"sync"
+	"syscall"
 	"time"
 
 	"0chain.net/chaincore/block"
@@ -48,6 +49,8 @@ type request struct {
 	Key      []byte `json:"key,omitempty"`
 	Data     []byte `json:"data,omitempty"`
 	Style    int    `json:"style,omitempty"` // dbopen: 0 fresh object, 1 the object that wrote the db
+	CutMode  int    `json:"cutmode,omitempty"` // dbputfail: where the record write is cut (resolveCut)
+	CutSel   int64  `json:"cutsel,omitempty"`
 	// blockstore
 	Dir     string     `json:"dir,omitempty"`
 	Cache   int        `json:"cache,omitempty"`
@@ -75,6 +78,9 @@ type response struct {
 	Data     []byte     `json:"data,omitempty"`
 	Hdr      []byte     `json:"hdr,omitempty"`
 	Recs     []recOut   `json:"recs,omitempty"`
+	Cut      int64      `json:"cut,omitempty"`   // dbputfail: bytes of the record allowed to reach the file
+	Total    int64      `json:"total,omitempty"` // dbputfail: bytes a complete write of the record appends
+	Grew     int64      `json:"grew,omitempty"`  // dbputfail: bytes the data file actually grew by
 	Block    *blockProj `json:"block,omitempty"`
 }
 
@@ -217,6 +223,13 @@ func (s *sutState) handle(q *request) (rsp *response) {
 			return
 		}
 		rsp.Err = errStr(db.WriteData(&rec{key: q.Key, data: q.Data}))
+	case "dbputfail":
+		db := s.dbs[q.File]
+		if db == nil {
+			rsp.Err = "verif: no such db"
+			return
+		}
+		s.putFail(db, q, rsp)
 	case "dbsave":
 		db := s.dbs[q.File]
 		if db == nil {
@@ -331,6 +344,108 @@ func (s *sutState) handle(q *request) (rsp *response) {
 		rsp.Err = "verif: unknown op " + q.Op
 	}
 	return
+}
+
+// ---- injected write error ------------------------------------------------------------------------
+
+// resolveCut turns the plan's symbolic choice into the number of bytes of the
+// record (length prefix + payload, total bytes) that reach the data file
+// before the write fails: always in [0, total-1].
+func resolveCut(mode int, sel, total int64) int64 {
+	if sel < 0 {
+		sel = -sel
+	}
+	var cut int64
+	switch mode % 4 {
+	case 0: // inside the 4-byte length prefix (0: nothing reaches the file)
+		cut = sel % 4
+	case 1: // the length prefix exactly
+		cut = 4
+	case 2: // anywhere inside the payload
+		cut = 4
+		if total > 5 {
+			cut = 4 + 1 + sel%(total-5)
+		}
+	default: // the last bytes are missing
+		cut = total - 1 - sel%3
+	}
+	return max(0, min(cut, total-1))
+}
+
+// recordLen asks the code under test how many bytes a complete write of the
+// record appends to a data file: the record is written to a throw-away DB of
+// the same configuration in dir.
+func recordLen(dir string, q *request) (n int64, err error) {
+	if err = os.MkdirAll(dir, 0o755); err != nil {
+		return 0, err
+	}
+	defer os.RemoveAll(dir)
+	file := filepath.Join(dir, "probe")
+	db, err := blockdb.NewBlockDB(file, int8(q.KeyLen), q.Compress)
+	if err != nil {
+		return 0, err
+	}
+	if err = db.Create(); err != nil {
+		return 0, err
+	}
+	defer db.Close()
+	if err = db.WriteData(&rec{key: q.Key, data: q.Data}); err != nil {
+		return 0, err
+	}
+	st, err := os.Stat(file + "." + blockdb.FileExtData)
+	if err != nil {
+		return 0, err
+	}
+	return st.Size(), nil
+}
+
+// putFail writes one record while the file size limit of the process
+// (RLIMIT_FSIZE; SIGXFSZ is ignored, see childMain) stands Cut bytes beyond
+// the current end of the data file: write(2) stores what fits and then fails
+// with EFBIG, exactly like a file system that runs full inside the record.
+// The limit is lifted before the answer is sent. Nothing else in this process
+// writes to a regular file meanwhile (answers go to a pipe).
+func (s *sutState) putFail(db *blockdb.BlockDB, q *request, rsp *response) {
+	total, err := recordLen(q.Dir, q)
+	if err != nil {
+		rsp.Err = "verif: cannot size the record: " + err.Error()
+		return
+	}
+	data := q.File + "." + blockdb.FileExtData
+	st, err := os.Stat(data)
+	if err != nil {
+		rsp.Err = "verif: " + err.Error()
+		return
+	}
+	cut := resolveCut(q.CutMode, q.CutSel, total)
+	var old syscall.Rlimit
+	if err := syscall.Getrlimit(syscall.RLIMIT_FSIZE, &old); err != nil {
+		rsp.Err = "verif: getrlimit: " + err.Error()
+		return
+	}
+	lim := old
+	lim.Cur = uint64(st.Size() + cut)
+	if err := syscall.Setrlimit(syscall.RLIMIT_FSIZE, &lim); err != nil {
+		rsp.Err = "verif: setrlimit: " + err.Error()
+		return
+	}
+	lifted := false
+	lift := func() {
+		if !lifted {
+			lifted = true
+			if err := syscall.Setrlimit(syscall.RLIMIT_FSIZE, &old); err != nil {
+				panic("verif: cannot lift the file size limit: " + err.Error())
+			}
+		}
+	}
+	defer lift() // also when the code under test panics
+	werr := db.WriteData(&rec{key: q.Key, data: q.Data})
+	lift()
+	rsp.Cut, rsp.Total = cut, total
+	if st2, err := os.Stat(data); err == nil {
+		rsp.Grew = st2.Size() - st.Size()
+	}
+	rsp.Err = errStr(werr)
 }
 
 // settleCache waits (bounded) until the asynchronous cache writer of the block
